@@ -533,7 +533,7 @@ func run(sc *Scenario, scratch string) {
 	}
 	defer soloClient.Close()
 	lnode := &zv.Node{DB: ldb, Opts: opts}
-	for _, q := range sc.Queries {
+	for qi, q := range sc.Queries {
 		for _, f := range fols {
 			f.mx.Lock()
 			f.fault = Query{}
@@ -572,7 +572,13 @@ func run(sc *Scenario, scratch string) {
 		}
 		// the cluster: leader plan, partitions answered over rpc
 		from := atomic.LoadInt64(&evseq)
-		cl, stats, err := lnode.RawQueryOpts(q.SQL, true, zv.QueryOpts{StallAtRow: -1})
+		// (every other query carries a generous deadline: the query message then has one more
+		// field to keep, and the follower builds its context from it)
+		qo := zv.QueryOpts{StallAtRow: -1}
+		if qi%2 == 1 {
+			qo.DeadlineMs = 20000
+		}
+		cl, stats, err := lnode.RawQueryOpts(q.SQL, true, qo)
 		line["cluster"], line["stats"] = orEmpty(cl), stats
 		if err != nil {
 			line["clusterErr"] = err.Error()
